@@ -128,6 +128,14 @@ class C07(Prop):
     thm_modules = ["PeliteModel.Thm.C07", "PeliteModel.Thm.C07Checksum"]
     gens = [gen_img.gen_c07_corpus, gen_img.gen_c07, gen_img.gen_c07_boundaries]
 
+    def oracle(self, op, impl, model, spec):
+        if op.startswith("hdr ") and impl.startswith("ok "):
+            std = spec_field(spec, "stdcsum")
+            m = re.search(r" csum=(\d+)", impl)
+            if std is not None and m and m.group(1) != std:
+                return "computed checksum %s differs from the standard PE checksum %s of the buffer" % (m.group(1), std)
+        return None
+
     def nontrivial(self, op, impl):
         return impl.startswith("ok ")
 
